@@ -30,6 +30,8 @@ def run(ctx):
   rule_deny_format(ctx)
   rule_keypair(ctx)
   rule_enum(ctx)
+  rule_keygen(ctx)
+  ctx.expect("R-C06-KEYGEN", 5, "generator emulation clauses")
   ctx.expect("R-C06-PRED", 11, "eleven predicates")
   ctx.expect("R-C06-TABLES", 3, "two prime tables + F4")
   ctx.expect("R-C06-DLOG-LOOP", 2, "membership loop + residue table")
@@ -431,3 +433,106 @@ def rule_enum(ctx):
     if not binary and kind != "curve":
       bad.append("%s is a prime-field curve but maps to None" % name)
   ctx.record(R, "ec_util:CURVE_FACTORY", "binary-field curves -> None, prime-field curves -> EcCurve", not bad, "; ".join(bad) or "10 binary-field ids map to None, 9 prime-field ids to EcCurve")
+
+
+def rule_keygen(ctx):
+  """The keypair check can only flag 'every key produced by the vulnerable generator' if keypair_generator.Generator replays the
+  generator's control flow: which prime is kept and which is regenerated, the 30k+1 wheel, the byte window."""
+  R = "R-C06-KEYGEN"
+  repo = ctx.repo
+  m = repo.mod("keypair_generator")
+  f = repo.func("keypair_generator", "Generator.generate_key")
+  w = sym.Walker(repo, f)
+  w.run()
+  bits = P("param", "bits")
+  gp = lambda: sym.mk("mcall", SELF, lit("generate_prime"), sym.mk("fdiv", bits, Poly.const(2)))
+  probs = []
+  loops = [i for i in w.loop_info.values()]
+  if len(loops) != 1 or not loops[0].get("visits"):
+    probs.append("expected one retry loop")
+  else:
+    info = loops[0]
+    vis = info["visits"][0]
+    pre = vis["pre"].env
+    if as_poly(pre.get("p")) != gp() or as_poly(pre.get("q")) != gp():
+      probs.append("initial primes are not generate_prime(bits // 2) twice")
+    ph, qh = as_poly(vis["head"].env.get("p")), as_poly(vis["head"].env.get("q"))
+    saw_swap_keep = saw_noswap_keep = saw_ret_swap = saw_ret_noswap = False
+    for kind, val, s, since, v in info["body_paths"]:
+      gt = any(f_[0] == "cmp" and ((f_[1] == "Gt" and as_poly(f_[2]) == qh and as_poly(f_[3]) == ph) or (f_[1] == "Lt" and as_poly(f_[2]) == ph and as_poly(f_[3]) == qh)) for f_ in s.facts)
+      le = any(f_[0] == "cmp" and ((f_[1] == "LtE" and as_poly(f_[2]) == qh and as_poly(f_[3]) == ph) or (f_[1] == "GtE" and as_poly(f_[2]) == ph and as_poly(f_[3]) == qh)) for f_ in s.facts)
+      big, small = (qh, ph) if gt else (ph, qh)
+      if not (gt or le):
+        probs.append("a retry iteration does not order the primes (if q > p: swap) before testing the size")
+        continue
+      if kind == "return":
+        okv = isinstance(val, Seq) and len(val.items) == 2 and as_poly(val.items[0]) == big and as_poly(val.items[1]) == small
+        okb = any(f_[0] == "cmp" and f_[1] == "Eq" and as_poly(f_[2]) == sym.mk("bitlen", ph * qh) and as_poly(f_[3]) == bits for f_ in s.facts)
+        if not (okv and okb):
+          probs.append("accepted key is not (larger, smaller) under bit_length(p*q) == bits")
+        saw_ret_swap |= gt
+        saw_ret_noswap |= le
+      elif kind in ("fall", "continue"):
+        pe, qe = as_poly(s.env.get("p")), as_poly(s.env.get("q"))
+        if pe != big:
+          probs.append("on retry the larger prime is not the one that is kept (keypair.js discards the smaller one)")
+        if qe != gp():
+          probs.append("on retry q is not regenerated with generate_prime(bits // 2)")
+        saw_swap_keep |= gt
+        saw_noswap_keep |= le
+      else:
+        probs.append("retry loop left by %s" % kind)
+    if not (saw_swap_keep and saw_noswap_keep and saw_ret_swap and saw_ret_noswap):
+      probs.append("the swap `if q > p` is not evaluated in every iteration of the retry loop")
+  ctx.record(R, f.where, "retry loop: order, test n.bit_length() == bits, regenerate the smaller prime", not probs, "; ".join(sorted(set(probs))) or
+             "each iteration swaps so that p >= q, accepts iff the modulus has `bits` bits, otherwise replaces q")
+  # wheel table: increments visit exactly the residues coprime to 30 starting from 1
+  tab = fold.try_fold(m.consts.get("GCD_30_DELTA")) if "GCD_30_DELTA" in m.consts else None
+  okt = isinstance(tab, list) and len(tab) == 8 and sum(tab) == 30
+  if okt:
+    r = 1
+    seen = []
+    for d in tab:
+      r = (r + d) % 30
+      seen.append(r)
+    import math
+    okt = sorted(seen) == sorted(x for x in range(30) if math.gcd(x, 30) == 1)
+  ctx.record(R, "keypair_generator:GCD_30_DELTA", "30k+1 wheel increments", okt, "8 increments, sum 30, visiting exactly the residues coprime to 30 from 1" if okt else "wheel table %r is not the mod-30 wheel" % (tab,))
+  g = repo.func("keypair_generator", "Generator.generate_prime")
+  wg = sym.Walker(repo, g)
+  wg.run()
+  psb = P("param", "p_size_bits")
+  nbytes = sym.mk("fdiv", psb, Poly.const(8))
+  asg = {}
+  for e in wg.events:
+    if e.kind == "assign":
+      asg.setdefault(e.data["name"], []).append(e)
+    if e.kind == "augassign":
+      asg.setdefault(e.data["name"] + "+=", []).append(e)
+  okw = False
+  for e in asg.get("prime_bytes", []):
+    a = as_poly(e.data["value"]).as_atom()
+    if a is not None and a.kind == "slice" and a.args[1].as_int() == 1 and (a.args[2] - (nbytes + 1)).is_zero():
+      okw = True
+  src = ast.unparse(g.node)
+  okl = "while len(prime_bytes) <= p_size_bytes:" in src
+  ctx.record(R, g.where, "byte window prime_bytes[1 : size+1] of more than size bytes", okw and okl, "first keystream byte skipped, p_size_bits // 8 bytes used" if okw and okl else
+             "byte window of the candidate changed")
+  okm = False
+  oka = False
+  for e in wg.events:
+    if e.kind == "augassign" and e.data["name"] == "p":
+      v = as_poly(e.data["value"])
+      txt = norm(e.node)
+      if txt in ("p |= 1 << p_size_bits - 1", "p |= 1 << (p_size_bits - 1)"):
+        okm = True
+      if txt in ("p += 31 - p % 30",):
+        oka = True
+  ctx.record(R, g.where, "msb set, aligned to 30k + 1", okm and oka, "p |= 1 << (bits - 1); p += 31 - p % 30" if okm and oka else "msb / alignment step changed")
+  okp = "while not gmpy.is_prime(p, 1):" in src and "p += GCD_30_DELTA[idx % 8]" in src and "idx += 1" in src and "if gmpy.is_prime(p, 10):" in src and "idx = 0" in src
+  ctx.record(R, g.where, "wheel walk until probable prime, then 10-round confirmation", okp, "candidate advanced along the wheel with a running index" if okp else "prime search loop changed")
+  init = repo.func("keypair_generator", "Generator.__init__")
+  si = ast.unparse(init.node)
+  oki = "t = hashlib.sha1(seed).digest()" in si and "key = hashlib.sha1(t).digest()" in si and "seed = hashlib.sha1(key).digest()" in si and \
+      "self.key = key[:16]" in si and "self.seed = seed[:16]" in si
+  ctx.record(R, init.where, "PRNG state = sha1 chain of the seed, 16-byte key and counter", oki, "key = sha1(sha1(seed))[:16], seed = sha1(key)[:16]" if oki else "seed expansion changed")
